@@ -360,6 +360,279 @@ PANDAS_FAMILIES = {
 
 
 # ---------------------------------------------------------------------------------------------------------------
+# pandas data that is unequal but similar: categoricals, nullable vs numpy dtypes, object vs str, axis names,
+# MultiIndex level order, time zones, column order
+
+def _frame(col, n, where="column", name="k"):
+    """a small frame holding `col` as a column (next to an int column) or as its index"""
+    import pandas as pd
+
+    if where == "column":
+        return pd.DataFrame({name: col, "v": list(range(1, n + 1))})
+    if where == "series":
+        return pd.Series(col, name=name)
+    return pd.DataFrame({"v": list(range(1, n + 1))}, index=pd.Index(col, name=name))
+
+
+def fam_categorical(seed):
+    """identical codes over permuted categories, the same labels over permuted categories, ordered vs unordered, the
+    labels as object / str, an unused category, other category dtype; as a column (seed % 3 == 0), a Series or a
+    CategoricalIndex"""
+    import pandas as pd
+
+    where = ("column", "index", "series")[seed % 3]
+    cats = [["a", "b"], ["a", "b", "c"], ["x", "y"], [1, 2], ["b", "a"]][(seed // 3) % 5]
+    r = np.random.default_rng(seed)
+    n = 4 + seed % 3
+    codes = [int(c) for c in r.integers(0, len(cats), n)]
+    codes[0], codes[1] = 0, len(cats) - 1        # both ends are used: a permutation changes the labels
+    rev = list(reversed(cats))
+    rot = cats[1:] + cats[:1]
+    labels = [cats[c] for c in codes]
+
+    def mk(f):
+        return lambda: _frame(f(), n, where)
+    out = [
+        ("codes-over-categories", mk(lambda: pd.Categorical.from_codes(codes, categories=cats))),
+        ("same-codes-over-reversed-categories", mk(lambda: pd.Categorical.from_codes(codes, categories=rev))),
+        ("same-codes-over-rotated-categories", mk(lambda: pd.Categorical.from_codes(codes, categories=rot))),
+        ("same-labels-over-reversed-categories", mk(lambda: pd.Categorical(labels, categories=rev))),
+        ("ordered", mk(lambda: pd.Categorical.from_codes(codes, categories=cats, ordered=True))),
+        ("ordered-same-codes-over-reversed-categories", mk(lambda: pd.Categorical.from_codes(codes, categories=rev, ordered=True))),
+        ("ordered-same-labels-over-reversed-categories", mk(lambda: pd.Categorical(labels, categories=rev, ordered=True))),
+        ("labels-as-object", mk(lambda: np.array(labels, dtype=object))),
+        ("extra-unused-category", mk(lambda: pd.Categorical(labels, categories=cats + ["zz" if isinstance(cats[0], str) else 99]))),
+        ("codes-as-integers", mk(lambda: np.array(codes, dtype="int64"))),
+    ]
+    if isinstance(cats[0], str):
+        out.append(("labels-as-str-dtype", mk(lambda: pd.array(labels, dtype="str"))))
+        out.append(("categories-as-object-index", mk(lambda: pd.Categorical.from_codes(codes, categories=pd.Index(cats, dtype=object)))))
+    else:
+        out.append(("float-categories", mk(lambda: pd.Categorical.from_codes(codes, categories=[float(c) for c in cats]))))
+    return out
+
+
+def fam_nullable(seed):
+    """the same numbers under numpy and nullable dtypes, with and without a missing element"""
+    import pandas as pd
+
+    where = ("column", "index", "series")[seed % 3]
+    n = 4 + seed % 2
+    vals = [int(v) for v in _base(seed, (n,), "int64", 0, 3)]
+    missing = (seed // 3) % 2 == 1
+    k = 1 + seed % (n - 1)
+
+    def mk(f):
+        return lambda: _frame(f(), n, where)
+    if not missing:
+        return [
+            ("int64", mk(lambda: np.array(vals, dtype="int64"))),
+            ("Int64", mk(lambda: pd.array(vals, dtype="Int64"))),
+            ("Int32", mk(lambda: pd.array(vals, dtype="Int32"))),
+            ("int32", mk(lambda: np.array(vals, dtype="int32"))),
+            ("UInt8", mk(lambda: pd.array(vals, dtype="UInt8"))),
+            ("float64", mk(lambda: np.array(vals, dtype="float64"))),
+            ("Float64", mk(lambda: pd.array([float(v) for v in vals], dtype="Float64"))),
+            ("object-ints", mk(lambda: np.array(vals, dtype=object))),
+            ("bool", mk(lambda: np.array([bool(v) for v in vals]))),
+            ("boolean", mk(lambda: pd.array([bool(v) for v in vals], dtype="boolean"))),
+            ("int-from-bool", mk(lambda: np.array([int(bool(v)) for v in vals], dtype="int64"))),
+        ]
+    def withna(na, conv=lambda v: v):
+        return [na if i == k else conv(v) for i, v in enumerate(vals)]
+
+    def masked_after():
+        a = pd.array(vals, dtype="Int64")
+        a[k] = pd.NA
+        return a
+    return [
+        ("Int64-NA", mk(lambda: pd.array(withna(pd.NA), dtype="Int64"))),
+        ("Int64-NA-masked-after-holding-a-value", mk(masked_after)),
+        ("Float64-NA", mk(lambda: pd.array(withna(pd.NA, float), dtype="Float64"))),
+        ("float64-nan", mk(lambda: np.array(withna(np.nan, float), dtype="float64"))),
+        ("object-None", mk(lambda: np.array(withna(None), dtype=object))),
+        ("object-nan", mk(lambda: np.array(withna(np.nan), dtype=object))),
+        ("object-NA", mk(lambda: np.array(withna(pd.NA), dtype=object))),
+        ("Int64-other-missing-position", mk(lambda: pd.array([pd.NA if i == (k + 1) % n else v for i, v in enumerate(vals)], dtype="Int64"))),
+        ("Int64-zero-instead-of-NA", mk(lambda: pd.array(withna(0), dtype="Int64"))),
+        ("Int32-NA", mk(lambda: pd.array(withna(pd.NA), dtype="Int32"))),
+    ]
+
+
+def fam_strings_dtype(seed):
+    """the same strings as object / str / string / categorical / bytes-free numpy U data, missing as None / NaN / NA"""
+    import pandas as pd
+
+    where = ("column", "index", "series")[seed % 3]
+    words = [["a", "b", "a", "c"], ["ab", "c", "ab", "d"], ["x", "y", "z", "x"], ["1", "2", "1", "3"]][(seed // 3) % 4]
+    n = len(words)
+    missing = (seed // 12) % 2 == 1
+
+    def mk(f):
+        return lambda: _frame(f(), n, where, name="s")
+    if not missing:
+        return [
+            ("object", mk(lambda: np.array(words, dtype=object))),
+            ("str", mk(lambda: pd.array(words, dtype="str"))),
+            ("string", mk(lambda: pd.array(words, dtype="string"))),
+            ("categorical", mk(lambda: pd.Categorical(words))),
+            ("numpy-U", mk(lambda: np.array(words))),
+            ("object-with-int", mk(lambda: np.array([int(w) if w.isdigit() else w for w in words], dtype=object))),
+            ("object-bytes", mk(lambda: np.array([w.encode() for w in words], dtype=object))),
+            ("object-last-differs", mk(lambda: np.array(words[:-1] + [words[-1] + "!"], dtype=object))),
+        ]
+    def withna(na):
+        return [na] + words[1:]
+    return [
+        ("object-None", mk(lambda: np.array(withna(None), dtype=object))),
+        ("object-nan", mk(lambda: np.array(withna(np.nan), dtype=object))),
+        ("object-NA", mk(lambda: np.array(withna(pd.NA), dtype=object))),
+        ("str-nan", mk(lambda: pd.array(withna(None), dtype="str"))),
+        ("string-NA", mk(lambda: pd.array(withna(None), dtype="string"))),
+        ("object-literal-None-string", mk(lambda: np.array(withna("None"), dtype=object))),
+        ("object-literal-nan-string", mk(lambda: np.array(withna("nan"), dtype=object))),
+        ("categorical-missing", mk(lambda: pd.Categorical(withna(None)))),
+    ]
+
+
+def fam_axis_names(seed):
+    """the same values under other index / columns / Series names"""
+    import pandas as pd
+
+    vals = [int(v) for v in _base(seed, (4,), "int64")]
+    series = seed % 3 == 2
+
+    def df(index_name=None, columns_name=None, index=None, sname="a"):
+        def mk():
+            if series:
+                d = pd.Series(list(vals), name=sname, index=None if index is None else index())
+            else:
+                d = pd.DataFrame({"a": list(vals), "b": [0.5, 1.5, 2.5, 3.5]}, index=None if index is None else index())
+                if columns_name is not None:
+                    d.columns.name = columns_name
+            if index_name is not None:
+                d.index.name = index_name
+            return d
+        return mk
+    out = [
+        ("unnamed", df()),
+        ("index-named-a", df("a")),
+        ("index-named-b", df("b")),
+        ("index-named-idx", df("idx")),
+        ("index-named-0", df(0)),
+        ("index-named-tuple", df(("a", 1))),
+        ("index-named-empty-string", df("")),
+        ("int-index-named-idx", df("idx", index=lambda: pd.Index([0, 1, 2, 3]))),
+        ("int-index-unnamed", df(index=lambda: pd.Index([0, 1, 2, 3]))),
+    ]
+    if series:
+        out += [("series-named-b", df(sname="b")), ("series-unnamed", df(sname=None)), ("series-named-0", df(sname=0))]
+    else:
+        out += [("columns-named-a", df(columns_name="a")), ("columns-named-c", df(columns_name="c")),
+                ("columns-and-index-named", df("idx", "c"))]
+    return out
+
+
+def fam_multiindex(seed):
+    """MultiIndex level order, names, unused levels, level dtype; on the rows or on the columns"""
+    import pandas as pd
+
+    on_columns = seed % 4 == 3
+    l0 = [[1, 1, 2, 2], [1, 2, 1, 2], [1, 1, 1, 2]][(seed // 4) % 3]
+    l1 = ["a", "b", "a", "b"]
+    vals = [int(v) for v in _base(seed, (4,), "int64")]
+
+    def df(mi):
+        def mk():
+            m = mi()
+            if on_columns:
+                return pd.DataFrame([list(vals), [v + 1 for v in vals]], columns=m)
+            return pd.DataFrame({"v": list(vals), "w": [0.5, 1.5, 2.5, 3.5]}, index=m)
+        return mk
+
+    def unused():
+        m = pd.MultiIndex.from_arrays([l0 + [9], l1 + ["z"]], names=["p", "q"])
+        return m[:4]
+    return [
+        ("levels-p-q", df(lambda: pd.MultiIndex.from_arrays([l0, l1], names=["p", "q"]))),
+        ("levels-swapped-with-names", df(lambda: pd.MultiIndex.from_arrays([l1, l0], names=["q", "p"]))),
+        ("levels-swapped-names-kept", df(lambda: pd.MultiIndex.from_arrays([l1, l0], names=["p", "q"]))),
+        ("names-swapped", df(lambda: pd.MultiIndex.from_arrays([l0, l1], names=["q", "p"]))),
+        ("unnamed", df(lambda: pd.MultiIndex.from_arrays([l0, l1]))),
+        ("from-tuples", df(lambda: pd.MultiIndex.from_tuples(list(zip(l0, l1)), names=["p", "q"]))),
+        ("unused-level-entries", df(unused)),
+        ("first-level-float", df(lambda: pd.MultiIndex.from_arrays([[float(x) for x in l0], l1], names=["p", "q"]))),
+        ("first-level-str", df(lambda: pd.MultiIndex.from_arrays([[str(x) for x in l0], l1], names=["p", "q"]))),
+        ("flat-index-of-tuples", df(lambda: pd.Index(list(zip(l0, l1)), tupleize_cols=False))),
+        ("second-level-reversed", df(lambda: pd.MultiIndex.from_arrays([l0, l1[::-1]], names=["p", "q"]))),
+        ("same-codes-over-reversed-level", df(lambda: pd.MultiIndex(levels=[sorted(set(l0)), ["b", "a"]],
+                                                                   codes=[[sorted(set(l0)).index(x) for x in l0], [0, 1, 0, 1]], names=["p", "q"]))),
+    ]
+
+
+def fam_timezones(seed):
+    """the same wall clock times naive / in UTC / in other zones, the same instants in another zone, other units"""
+    import pandas as pd
+
+    where = ("column", "index", "series")[seed % 3]
+    start = ["2001-01-01 00:00", "2001-06-01 12:00", "2001-03-25 00:30"][(seed // 3) % 3]
+    n = 4
+
+    def wall():
+        return pd.date_range(start, periods=n, freq="6h")
+
+    def mk(f):
+        return lambda: _frame(f(), n, where, name="t")
+    return [
+        ("naive", mk(wall)),
+        ("wall-time-in-UTC", mk(lambda: wall().tz_localize("UTC"))),
+        ("wall-time-in-London", mk(lambda: wall().tz_localize("Europe/London"))),
+        ("wall-time-in-New_York", mk(lambda: wall().tz_localize("America/New_York"))),
+        ("UTC-instants-shown-in-London", mk(lambda: wall().tz_localize("UTC").tz_convert("Europe/London"))),
+        ("UTC-instants-shown-in-New_York", mk(lambda: wall().tz_localize("UTC").tz_convert("America/New_York"))),
+        ("wall-time-fixed-offset", mk(lambda: wall().tz_localize("+01:00"))),
+        ("naive-unit-s", mk(lambda: wall().as_unit("s"))),
+        ("naive-unit-ns", mk(lambda: wall().as_unit("ns"))),
+        ("naive-as-int64", mk(lambda: wall().as_unit("ns").asi8)),
+        ("naive-as-object", mk(lambda: wall().astype(object))),
+        ("naive-as-strings", mk(lambda: np.array([str(t) for t in wall()], dtype=object))),
+        ("naive-without-freq", mk(lambda: pd.DatetimeIndex(list(wall())))),
+    ]
+
+
+def fam_column_order(seed):
+    """the same (name -> data) mapping listed in another column order; duplicated / renamed columns"""
+    import itertools
+
+    import pandas as pd
+
+    n = 3 + seed % 2
+    data = {"a": [int(v) for v in _base(seed, (n,), "int64")], "b": [0.5 + i for i in range(n)], "c": [int(v) for v in _base(seed + 1, (n,), "int64")],
+            "d": ["x", "y", "z", "w"][:n]}
+    cols = ["a", "b", "c", "d"][: 3 + (seed // 2) % 2]
+    out = []
+    perms = list(itertools.permutations(cols))
+    step = 1 if len(cols) == 3 else 5
+    for perm in perms[::step]:
+        out.append(("columns-" + "".join(perm), (lambda perm=perm: pd.DataFrame({c: list(data[c]) for c in perm}))))
+    out.append(("columns-reordered-by-getitem", lambda: pd.DataFrame({c: list(data[c]) for c in cols})[list(reversed(cols))]))
+    out.append(("same-data-first-two-names-swapped", lambda: pd.DataFrame({c: list(data[c]) for c in cols}).rename(columns={cols[0]: cols[1], cols[1]: cols[0]})))
+    return out
+
+
+PANDAS_FAMILIES.update({
+    "categorical": fam_categorical,
+    "nullable-vs-numpy": fam_nullable,
+    "object-vs-str": fam_strings_dtype,
+    "axis-names": fam_axis_names,
+    "multiindex": fam_multiindex,
+    "timezones": fam_timezones,
+    "column-order": fam_column_order,
+})
+PANDAS_SIMILAR = ("categorical", "nullable-vs-numpy", "object-vs-str", "axis-names", "multiindex", "timezones", "column-order")
+
+
+# ---------------------------------------------------------------------------------------------------------------
 # plain Python sequences / arguments (bags, delayed)
 
 PYSEQ_GROUPS = [
